@@ -15,14 +15,12 @@ import (
 
 type c10rt struct {
 	bodies map[string][]byte
-	ctypes map[string]string
 	status int
 }
 
 func (r *c10rt) RoundTrip(req *http.Request) (*http.Response, error) {
 	b, _ := io.ReadAll(req.Body)
 	r.bodies[req.URL.Host] = b
-	r.ctypes[req.URL.Host] = req.Header.Get("Content-Type")
 	return &http.Response{StatusCode: r.status, Body: io.NopCloser(bytes.NewReader(nil)), Header: http.Header{}}, nil
 }
 
@@ -42,7 +40,6 @@ func VerifC10_HTTPSenderWire() {
 		verif_Assume(perr == nil)
 		urls = append(urls, u)
 	}
-	rt := &c10rt{bodies: map[string][]byte{}, ctypes: map[string]string{}, status: []int{200, 204}[verif_Choose("status", 0, 1)]}
 	opts := []Option{WithClient(&http.Client{Transport: rt})}
 	var extra []byte
 	if verif_Bool("extraData") {
